@@ -45,6 +45,28 @@ CHECKS = {
         note="String contents with backslashes or blank-led lines belong to C04 and are not used here.",
         design="2/C07",
     ),
+    "C11": dict(
+        category="model_checking",
+        technique="breadth-first exploration of all call histories up to a depth bound (each in a fresh fork of the pristine process) with environment choices; invariant: every call returns its pristine / fresh-interpreter result",
+        text="All histories of up to 2 (quick) / 3 (thorough) API calls over 18 operations chosen to collide on process-wide state "
+             "(memo table, class-level lists, reused compiler object, raising calls, the CLI's op counter), under gc / heap-phase "
+             "choices, plus long alternations; after every call the ops, text, serialised source maps or exception must equal the "
+             "result of the same call alone, which in turn must equal two fresh interpreters; the input routine set must be "
+             "structurally unchanged.",
+        note="Graph id recycling is left to CPython's allocator under the explored gc / heap-phase choices.",
+        design="2/C11",
+    ),
+    "C12": dict(
+        category="model_checking",
+        technique="stateless exploration of all thread schedules up to a preemption bound (iterative context bounding) of real compile()/convert() calls under a deterministic sys.monitoring scheduler, one fork per execution",
+        text="2 (thorough: 3) real threads each run one real call; scheduling points are the cooperative replacement of "
+             "cache_lock, every line of the shared memo functions, function entries of the graph passes and antlr4's shared "
+             "DFA / context caches, from a cold cache; every schedule with <= 1 (thorough: 2) preemptions is executed and each "
+             "call's result compared with its sequential result; failures are replayed twice; a free-running pass guards against "
+             "hand-off artefacts.",
+        note="Absence of a violation is relative to the chosen scheduling points; each explored schedule is a feasible GIL schedule.",
+        design="2/C12",
+    ),
     "C13": dict(
         category="exploration",
         technique="exhaustive enumeration of flat structured programs (all K-sequences of item variants); shape oracle on decompile(compile(p))",
